@@ -15,7 +15,7 @@ import uuid
 import z3
 
 from . import sym as S
-from .core import Ctx, Stats, Unsupported, Violation, explore
+from .core import Ctx, PathAbort, Stats, Unsupported, Violation, explore
 
 
 class Clauses(list):
@@ -218,6 +218,26 @@ class RInputs(SymInputs):
         return DT._make(secs, micro, TZ(offset_s), check=None)
 
 
+class FInputs(RInputs):
+    """Symbolic mode, exact floating-point family (witness search only, see kv.fmode)."""
+
+    fmode = True
+
+    def int(self, name, lo, hi):
+        from .fmode import FInt
+
+        v = FInt.var(name, lo, hi)
+        self.vals[name] = v
+        return v
+
+    def ite(self, cond, a, b):
+        if type(cond) is bool:
+            return a if cond else b
+        from .fmode import FInt, _lift
+
+        return FInt(z3.If(cond.e, _lift(a), _lift(b)))
+
+
 class ConcreteInputs:
     """Replay mode: concrete witness values, real io.BytesIO, real kio."""
 
@@ -381,8 +401,160 @@ class LemmaHarness:
         return {"module": self.module, "lemma": self.name, "rmode": self.rmode, "values": vals}
 
 
+def fmode_witnesses(module, name, fn, clauses, budget_s=150):
+    """Search concrete candidates for the given (failing) clauses of an R-mode lemma in exact
+    floating-point arithmetic: z3 with a short limit, then the cvc5 binary.  -> list of witness dicts"""
+    from . import fmode
+
+    out = []
+    t_end = time.time() + budget_s
+    want = {c.split(":", 1)[-1] for c in clauses}
+
+    class H:
+        def run(self, c):
+            I = FInputs(c)
+            c.notes["I"] = I
+            fn(I)
+            return [(n, t) for n, t in I.clauses]
+
+        def witness(self, c, model, clause, info):
+            return {}
+
+    class LazyCtx(Ctx):
+        """no feasibility queries while executing (exact FP feasibility is too slow for z3): both
+        sides of every branch are scheduled, infeasible paths die at the final query"""
+
+        def branch(self, cond):
+            cond = z3.simplify(cond)
+            if z3.is_true(cond):
+                return True
+            if z3.is_false(cond):
+                return False
+            if self.pos < len(self.prefix):
+                take = self.prefix[self.pos]
+            else:
+                take = True
+                self.pending.append(list(self.decisions) + [False])
+            self.pos += 1
+            self.decisions.append(take)
+            self.solver.add(cond if take else z3.Not(cond))
+            return take
+
+    # walk the paths ourselves so that each obligation can be tried with both solvers
+    work = [[]]
+    seen = 0
+    while work and time.time() < t_end and seen < 40:
+        prefix = work.pop()
+        c = LazyCtx(prefix, rlimit=30_000_000)
+        Ctx.cur = c
+        try:
+            obl = H().run(c)
+            seen += 1
+            I = c.notes["I"]
+            for cname, term in obl:
+                if cname not in want or time.time() > t_end:
+                    continue
+                t = z3.simplify(_as_term(term))
+                if z3.is_true(t):
+                    continue
+                vals = None
+                s2 = z3.Solver()
+                s2.set("timeout", 8000)
+                s2.add(*c.solver.assertions())
+                s2.add(z3.Not(t))
+                r = s2.check()
+                if r == z3.sat:
+                    m = s2.model()
+                    vals = {k: _conc(v, m) for k, v in I.vals.items()}
+                elif r == z3.unknown:
+                    names = {}
+                    for k, v in I.vals.items():
+                        if type(v) is fmode.FInt and z3.is_const(v.e):
+                            names[str(v.e)] = k
+                    ext = fmode.solve_external(list(c.solver.assertions()) + [z3.Not(t)], list(names), tlimit_s=max(5, min(60, int(t_end - time.time()))))
+                    if ext is not None:
+                        vals = {k: v for k, v in I.vals.items() if type(v) is int}
+                        vals.update({names[n]: val for n, val in ext.items()})
+                if vals is not None:
+                    out.append({"clause": f"{name}:{cname}", "witness": {"module": module, "lemma": name, "rmode": True, "values": vals},
+                                "info": {"found_by": "F-mode (exact floating point) witness search"}})
+        except (PathAbort, Unsupported, z3.Z3Exception):
+            pass
+        except Exception:
+            pass  # an exception on a (probably infeasible) lazily explored path: not a witness
+        finally:
+            Ctx.cur = None
+        work.extend(c.pending)
+    return out
+
+
+def candidate_search(module, name, fn, witnesses, max_runs=6000):
+    """After an R-mode `sat` (an over-approximation) look for a concrete input that really fails:
+    the lemma is run on concrete candidates derived from the solver's models (neighbours, range
+    limits, sweeps in steps of 10^k).  This only ever ADDS candidates for the concrete replay - a
+    clause is never accepted as holding because this search found nothing."""
+    ranges = {}
+
+    class Rec(ConcreteInputs):
+        def int(self, nm, lo, hi):
+            ranges[nm] = (lo, hi)
+            return super().int(nm, lo, hi)
+
+    def run(values):
+        I = Rec(values, rmode=True)
+        try:
+            fn(I)
+        except (AssumptionFailed, TooLargeToReplay):
+            return None
+        except Exception as e:
+            return ["raised:" + type(e).__name__]
+        return [n for n, ok in I.clauses if not ok]
+
+    out, runs, seen = [], 0, set()
+    found = set()
+    for w in witnesses[:4]:
+        base = dict(w["witness"]["values"])
+        run(base)
+        for nm, (lo, hi) in list(ranges.items()):
+            v0 = base.get(nm, lo)
+            cands = {v0 + d for d in range(-3, 4)} | {lo, lo + 1, hi, hi - 1}
+            for k in range(0, 18):
+                step = 10**k
+                if step > hi - lo:
+                    break
+                cands |= {lo + i * step for i in range(0, 201)} | {v0 - v0 % step + i * step for i in range(-20, 21)}
+            for v in sorted(c for c in cands if lo <= c <= hi):
+                vals = dict(base)
+                vals[nm] = v
+                key = tuple(sorted(vals.items()))
+                if key in seen:
+                    continue
+                seen.add(key)
+                runs += 1
+                if runs > max_runs:
+                    return out
+                bad = run(vals)
+                for b in bad or []:
+                    if b not in found:
+                        found.add(b)
+                        out.append({"clause": f"{name}:{b}" if not b.startswith("raised:") else w["clause"], "witness": {"module": module, "lemma": name, "rmode": True, "values": vals},
+                                    "info": {"found_by": "concrete candidate search seeded by the R-mode models"}})
+    return out
+
+
+def _as_term(x):
+    if isinstance(x, bool):
+        return z3.BoolVal(x)
+    e = getattr(x, "e", None)
+    return e if e is not None else x
+
+
 def _conc(v, model):
     from .rmode import RInt
+    from .fmode import FInt
+
+    if type(v) is FInt:
+        return model.eval(v.e, model_completion=True).as_signed_long()
 
     t = type(v)
     if t is int:
@@ -438,6 +610,19 @@ def task_lemma(args):
     t0 = time.time()
     explore(h, max_paths=opts.get("max_paths", 4000), stats=st, hints=opts.get("hints", ()), range_bound=opts.get("range_bound", 3),
             deadline=t0 + opts.get("seconds", 120))
+    if rmode and st.cex and not opts.get("no_fmode"):
+        # R-mode counterexamples may be artefacts of the over-approximation: also look for exact witnesses
+        extra = []
+        try:
+            extra = candidate_search(module, name, fn, [c for c in st.cex if c.get("witness")])
+        except Exception:
+            extra = []
+        if not extra and opts.get("fmode"):
+            try:
+                extra = fmode_witnesses(module, name, fn, sorted({c["clause"] for c in st.cex}))
+            except Exception:  # the search is best effort
+                extra = []
+        st.cex.extend(extra)
     return {"lemma": name, "stats": st.to_json(), "wall": round(time.time() - t0, 2)}
 
 
